@@ -19,6 +19,7 @@ import EaselModel.Alphabet.Round4Lemmas
 import EaselModel.Alphabet.History2Lemmas
 import EaselModel.Alphabet.GuessCutoffLemmas
 import EaselModel.Alphabet.SqCopyLemmas
+import EaselModel.Alphabet.MatchLemmas
 /-! # C08 — property theorems (statements + glue only; lemmas live in Alphabet/*.lean)
 
 `G.dna`, `G.rna`, `G.amino`, `G.coins`, `G.dice` are the tables dumped from the code under check on this run
@@ -655,6 +656,12 @@ example : roundHalfQ (1/2) = 1 := roundHalfQ_eq _ 1 (by unfold RoundHalfAway; no
 example : roundHalfQ (-1/2) = -1 := roundHalfQ_eq _ (-1) (by unfold RoundHalfAway; norm_num)
 example : roundHalfQ (7/3) = 2 := roundHalfQ_eq _ 2 (by unfold RoundHalfAway; norm_num)
 
+/-- the routines themselves on the dumped DNA table: `R` = {A, G} with 1, 2 → 2; with −1, −2 → −2; the vector filler -/
+example : iAvgScore ℚ G.dna 5 [1, 0, 2, 0] = some 2 ∧ iAvgScore ℚ G.dna 5 [-1, 0, -2, 0] = some (-2) ∧
+    iAvgScore ℚ G.dna 4 [1, 0, 2, 0] = some 0 := by decide +kernel
+example : iAvgScVec ℚ G.dna [1, 0, 2, 0, 9, 0, 0, 0, 0, 0, 0, 0, 0, 0, 0, 0, 7, 8] =
+    some [1, 0, 2, 0, 9, 2, 0, 1, 1, 1, 1, 0, 1, 1, 1, 1, 7, 8] := by decide +kernel
+
 /-! ## round 4: text-mode `esl_sq_CountResidues`, `esl_abc_TextizeN` windows, `dsqrlen`, `dsqdup`, plain counts -/
 
 /-- **text-mode `esl_sq_CountResidues`** (after fix 10c7a99) for EVERY byte string: eslERANGE iff `start < 0` or
@@ -766,12 +773,15 @@ theorem char_classes_regenerated :
       [G.dice.gap, G.dice.unknown, G.dice.nonresidue, G.dice.missing] = Generated.AlphabetsAux.xGet_dice) := by
   decide +kernel
 
-/-- the letter classes of `esl_abc_GuessAlphabet` read off the code: on 3 × 26 probe compositions (a DNA, an RNA and an empty
-    background plus a few copies of one letter) the code under check answered on this run what the integer model answers, and
-    with the DNA background the answer is amino exactly for the letters of `Guess.aaonly` (EFIJLOPQZ) -/
+/-- the letter classes and thresholds of `esl_abc_GuessAlphabet` read off the code: on 3 × 26 probe compositions (a DNA, an RNA
+    and an empty background plus a few copies of one letter) and 12 threshold probes (10 / 11 residues, all-N 2000 / 2001, 2 % of
+    100 and of 101, a missing canonical residue, U next to T) the code under check answered on this run what the integer model
+    answers; with the DNA background the answer is amino exactly for the letters of `Guess.aaonly` (EFIJLOPQZ) -/
 theorem guess_probe_regenerated :
-    (List.range 78).map (fun i => Guess.guessZ (Guess.probe i)) = Generated.AlphabetsAux.guessProbe ∧
-    (∀ l, l < 26 → (Generated.AlphabetsAux.guessProbe.getD l 0 = 3 ↔ l ∈ Guess.aaonly)) := by
+    (List.range 78).map (fun i => Guess.guessZ (Guess.probe i)) ++ Guess.thresholdProbes.map Guess.guessZ =
+      Generated.AlphabetsAux.guessProbe ∧
+    (∀ l, l < 26 → (Generated.AlphabetsAux.guessProbe.getD l 0 = 3 ↔ l ∈ Guess.aaonly)) ∧
+    Guess.thresholdProbes.map Guess.guessZ = [0, 2, 0, 2, 2, 0, 2, 0, 0, 2, 0, 1] := by
   decide +kernel
 
 /-! ## round 4: custom alphabets — what a rejected call leaves behind, and the documented postcondition of each setter -/
@@ -821,6 +831,8 @@ theorem custom_ignored_caseins_post (a : Alphabet) (hl : a.inmap.length = 128) (
       (∀ c, ¬ (97 ≤ c ∧ c ≤ 122) → ¬ (65 ≤ c ∧ c ≤ 90) → a.setCaseInsensitive.2.inmapAt c = a.inmapAt c)) :=
   ⟨⟨(setIgnored_post a hl chars).1, fun c hc hm => setIgnored_code a hl hk chars c hc hm, rfl, rfl, rfl⟩,
    fun hok => setCaseInsensitive_post a hl hok⟩
+
+example : G.dna.inmap.length = 128 ∧ G.dna.Kp ≤ 250 ∧ G.dna.setCaseInsensitive.1 = .ok ∧ G.amino.WFDegen := by decide +kernel
 
 /-- non-vacuity: on the demo alphabet "ACGT-N*~" with K=4 there is no degenerate symbol, so take "ACGT-RYN*~": `R` := "AG!" is
     rejected at `!` and leaves `R` = {A, G} exactly as `R` := "AG" does; `SetCaseInsensitive` after `a`→C is eslECORRUPT -/
@@ -872,6 +884,18 @@ theorem match_formula (a : Alphabet) (h : a.WFDegen) (x y : Nat) (hx : x < a.Kp)
       some (flagSum2 (a.degen.getD x []) (a.degen.getD y []) (fun j => p.getD j 0 * p.getD j 0) 0 a.K /
         (flagSum (a.degen.getD x []) (fun j => p.getD j 0) 0 a.K * flagSum (a.degen.getD y []) (fun j => p.getD j 0) 0 a.K)) :=
   matchProb_formula a h x y hx hy hrx hry hnc p hp
+
+/-- `esl_abc_Match(abc, x, y, NULL)` (uniform background) for two residue codes at least one of which is degenerate:
+    |S(x) ∩ S(y)| / (|S(x)| · |S(y)|) — the probability that residues drawn uniformly from the two sets are identical -/
+theorem match_uniform (a : Alphabet) (h : a.WFDegen) (hK : 1 ≤ a.K) (x y : Nat) (hx : x < a.Kp) (hy : y < a.Kp)
+    (hrx : a.xIsResidue x = true) (hry : a.xIsResidue y = true) (hnc : (a.xIsCanonical x && a.xIsCanonical y) = false) :
+    a.matchProb x y (none : Option (List ℚ)) =
+      some (((a.commonSet x y).length : ℚ) / (((a.degenSet x).length : ℚ) * ((a.degenSet y).length : ℚ))) :=
+  matchProb_uniform a h hK x y hx hy hrx hry hnc
+
+/-- DNA: R = {A,G} against N = {A,C,G,T}: 2 / (2·4); R against Y = {C,T}: 0 -/
+example : G.dna.commonSet 5 15 = [0, 2] ∧ G.dna.commonSet 5 6 = [] ∧ G.dna.matchProb 5 15 (none : Option (List ℚ)) = some (1/4) := by
+  decide +kernel
 
 /-- canonical pairs match iff equal; anything involving a gap, nonresidue, missing or invalid code scores 0 -/
 theorem match_easy_cases (a : Alphabet) (x y : Nat) (p : Option (List ℚ)) :
